@@ -266,7 +266,7 @@ func (L *c15Launch) desc() string {
 // c15Start launches the real server: kind "lib" = worker child hosting pkg/server behind the
 // LimitListener/FilterListener composition, kind "bin" = the real CLI binary with flags (or, when
 // viaEnv, the documented environment variables).
-func c15Start(e *Env, st *c15Stats, kind, root, wl string, n int, v6, viaEnv bool, tag string) (*c15Launch, error) {
+func c15Start(e *Env, st *c15Stats, kind, root, wl string, n int, v6, dual, viaEnv bool, tag string) (*c15Launch, error) {
 	L := &c15Launch{e: e, kind: kind, wl: wl, N: n, log: newC15Log(), st: st}
 	if wl != "" {
 		rr, v := refParse(wl)
@@ -278,6 +278,10 @@ func c15Start(e *Env, st *c15Stats, kind, root, wl string, n int, v6, viaEnv boo
 	listen := "127.0.0.1:0"
 	if v6 {
 		listen = "[::1]:0"
+	}
+	if dual {
+		// wildcard socket serving both families: IPv4 peers reach the server as IPv4-mapped IPv6 addresses
+		listen = "[::]:0"
 	}
 	c15SpawnMu.Lock()
 	defer c15SpawnMu.Unlock()
@@ -647,16 +651,17 @@ func c15JudgeWhitelist(ev []c15Event, metas []c15Meta) []c15Verdict {
 type c15WLCase struct {
 	kind, spec string
 	v6, viaEnv bool
+	dual       bool // the server listens on [::] (both families), clients come over IPv4
 	srcs       []c15Src
 }
 
 func c15RunWhitelist(e *Env, st *c15Stats, root string, cs c15WLCase, idx int) {
 	run := e.Run
 	class := specClass(cs.spec)
-	L, err := c15Start(e, st, cs.kind, root, cs.spec, 0, cs.v6, cs.viaEnv, fmt.Sprintf("c15-wl%d", idx))
+	L, err := c15Start(e, st, cs.kind, root, cs.spec, 0, cs.v6, cs.dual, cs.viaEnv, fmt.Sprintf("c15-wl%d", idx))
 	if err != nil {
 		switch {
-		case cs.v6 && !strings.Contains(err.Error(), "whitelist"):
+		case (cs.v6 || cs.dual) && !strings.Contains(err.Error(), "whitelist"):
 			atomic.AddInt64(&st.skipped, int64(len(cs.srcs)))
 			run.Count("v6_launches_unavailable", 1)
 		case strings.Contains(err.Error(), "whitelist") || strings.Contains(err.Error(), "client-whitelist"):
@@ -745,8 +750,11 @@ func c15RunWhitelist(e *Env, st *c15Stats, root string, cs c15WLCase, idx int) {
 				}
 			}
 			run.Violate(v.rule, class+" "+v.meta.Pos, fmt.Sprintf("[%s whitelist=%s] %s", cs.kind, cs.spec, v.detail),
-				map[string]any{"target": cs.kind, "whitelist": cs.spec, "listen_v6": cs.v6, "probe": v.meta, "events": c15FormatEvents(mine, 40)})
+				map[string]any{"target": cs.kind, "whitelist": cs.spec, "listen_v6": cs.v6, "listen_dual_stack": cs.dual, "probe": v.meta, "events": c15FormatEvents(mine, 40)})
 		default:
+			if cs.dual {
+				run.Sig("%s dual-stack %s %s", cs.kind, class, memb)
+			}
 			run.Sig("%s %s %s %s", cs.kind, class, memb, v.meta.Pos)
 		}
 	}
@@ -805,6 +813,20 @@ func c15Part1(e *Env, st *c15Stats, root string) {
 			mk("bin", v6specs[i], true, false)
 			atomic.AddInt64(&st.binWL, 1)
 		}
+	}
+	// dual-stack wildcard listener ([::]:port): IPv4 clients, IPv4 and IPv6-only sets
+	nd := len(cases)
+	for i := 0; i < e.Pick(6, 40); i++ {
+		mk("lib", c15GenSpec(r, i*3+1), false, false)
+	}
+	if e.Bin != "" {
+		for i := 0; i < e.Pick(4, 16); i++ {
+			mk("bin", c15GenSpec(r, i*7+2), false, i%3 == 1)
+			atomic.AddInt64(&st.binWL, 1)
+		}
+	}
+	for i := nd; i < len(cases); i++ {
+		cases[i].dual = true
 	}
 	ParallelDo(len(cases), 8, func(i int) { c15RunWhitelist(e, st, root, cases[i], i) })
 }
@@ -1567,7 +1589,7 @@ type c15LimCase struct {
 
 func c15RunLimit(e *Env, st *c15Stats, root string, cs c15LimCase, idx int) {
 	run := e.Run
-	L, err := c15Start(e, st, cs.kind, root, cs.wl, cs.N, false, cs.viaEnv, fmt.Sprintf("c15-lim%d", idx))
+	L, err := c15Start(e, st, cs.kind, root, cs.wl, cs.N, false, false, cs.viaEnv, fmt.Sprintf("c15-lim%d", idx))
 	if err != nil {
 		run.Inconclusive(fmt.Sprintf("cannot launch %s with max-clients=%d whitelist=%q: %v", cs.kind, cs.N, cs.wl, err))
 		return
@@ -1654,7 +1676,7 @@ func c15Part2(e *Env, st *c15Stats, root string) {
 
 func C15(e *Env) {
 	run := e.Run
-	run.Rule = "cases: (a) one probe = (whitelist specification, client source address): specifications from the documented grammar restricted to loopback (single, range, CIDR /8../32 with and without host bits, netmask form, IPv6-only sets), sources at the set's borders +-1 (network/broadcast address of a block), random interior, near and far exterior, 127.0.0.1, and ::1 against [::1] listeners; membership expected from the reference address set; the client connects, sends STAT / and must either receive the complete 33-byte answer (inside) or be closed by the server with zero bytes (outside). (b) one step of a PRNG schedule over up to 4N clients against a server limited to N clients (optionally also whitelisted): ARRIVE, ARRIVE while N are held (must stay unanswered across 3 complete round trips of every held client), DEPART (orderly / half-close / RST; a waiting client must then be answered), DEPART_WAITING, ARRIVE_REJECTED, ROUNDTRIP, then close-everything + N fresh clients served concurrently, then a burst of 3N rejected arrivals + N fresh clients. Both on the library worker (LimitListener under FilterListener as in cmd/) and on the real binary (flags and environment). Verdicts from the client-side event log (one monotonic clock): zero-byte/closed/answered per probe, max overlap of certainly-served intervals <= N, no first byte for a waiting client before a departure; liveness verdicts need a 10 s watchdog plus a responsive control, else inconclusive. non-trivial = distinct (target, spec class, membership, position) and (target, N, step kind, departure variant, outcome)"
+	run.Rule = "cases: (a) one probe = (whitelist specification, client source address): specifications from the documented grammar restricted to loopback (single, range, CIDR /8../32 with and without host bits, netmask form, IPv6-only sets), sources at the set's borders +-1 (network/broadcast address of a block), random interior, near and far exterior, 127.0.0.1, ::1 against [::1] listeners, and IPv4 sources against dual-stack [::] listeners (peers arrive as IPv4-mapped addresses); membership expected from the reference address set; the client connects, sends STAT / and must either receive the complete 33-byte answer (inside) or be closed by the server with zero bytes (outside). (b) one step of a PRNG schedule over up to 4N clients against a server limited to N clients (optionally also whitelisted): ARRIVE, ARRIVE while N are held (must stay unanswered across 3 complete round trips of every held client), DEPART (orderly / half-close / RST; a waiting client must then be answered), DEPART_WAITING, ARRIVE_REJECTED, ROUNDTRIP, then close-everything + N fresh clients served concurrently, then a burst of 3N rejected arrivals + N fresh clients. Both on the library worker (LimitListener under FilterListener as in cmd/) and on the real binary (flags and environment). Verdicts from the client-side event log (one monotonic clock): zero-byte/closed/answered per probe, max overlap of certainly-served intervals <= N, no first byte for a waiting client before a departure; liveness verdicts need a 10 s watchdog plus a responsive control, else inconclusive. non-trivial = distinct (target, spec class, membership, position) and (target, N, step kind, departure variant, outcome)"
 	root := e.Dir("c15root")
 	must(os.WriteFile(filepath.Join(root, "hello.txt"), []byte("hello"), 0o644))
 	st := &c15Stats{maxStrict: map[string]int{}, maxLoose: map[string]int{}}
